@@ -12,11 +12,11 @@ def run(ctx: Ctx) -> None:
     t5_derivs.run_gaussian_structure(ctx)
     ctx.floor("T5.gaussian-spacing", 2)
     ctx.floor("T5.gaussian-structure", 2)
-    ctx.floor("T5.dtype", 8)
+    ctx.floor("T5.dtype", 14)
     ctx.floor("T5.flowfields-curl", 8)
     ctx.floor("T5.stencil", 30)
     ctx.floor("T5.first-order", 12)
-    ctx.floor("T5.jacobian", 2)
+    ctx.floor("T5.jacobian", 6)
     ctx.floor("T5.bspline", 4)
 
 
@@ -46,6 +46,8 @@ def mutants(prog):
         ("gaussian mode: derivative kernel along the other axes", Im, "spatial_derivatives", "kernel = kernel_1 if sdim == d else kernel_0", "kernel = kernel_0 if sdim == d else kernel_1", "T5.gaussian-structure"),
         ("gaussian derivative kernel mirrored", "deepali.core.kernels", "gaussian1d_I", "* (x / var)", "* (-x / var)", "T5.gaussian-structure"),
         ("gaussian mode: tensor axis of the first spatial dimension", Im, "spatial_derivatives", "kernel = kernel_1 if sdim == d else kernel_0", "kernel = kernel_1 if sdim == D - 1 - d else kernel_0", "T5.gaussian-structure"),
+        ("finite differences: step size in the dtype of an integer field", Im, "spatial_derivatives", "if not data.is_floating_point():\n        data = data.float()\n    if mode is None:", "if mode is None:", "T5.dtype"),
+        ("jacobian_det 2d: fused product without the sign", Fm, "jacobian_det", "a.mul(d).sub_(b.mul(c))", "torch.addcmul(a.mul(d), b, c)", "T5.jacobian"),
     ]
     for name, mod, fn, old, new, expect in specs:
         ov = source_sub(prog, mod, fn, old, new)
